@@ -63,6 +63,19 @@ func (c17) Gen(r *sim.RNG, tier string, idx int) *Scenario {
 		// references to a built-in meta-schema: the one piece of state all callers share
 		injectRefs(sc.World, r, metaRefsSmall)
 	}
+	if sc.Mix == "shared-readonly-doc" && r.Bool(0.5) {
+		// one definition with a very large property map (encoders may treat big objects specially)
+		if root, ok := sc.World.Docs[sc.World.Root].(map[string]interface{}); ok {
+			defs, _ := root["definitions"].(map[string]interface{})
+			if defs != nil {
+				props := map[string]interface{}{}
+				for i := 0; i < 130+r.Intn(120); i++ {
+					props[fmt.Sprintf("field%03d", i)] = map[string]interface{}{"type": "string", "description": fmt.Sprintf("f%d", i)}
+				}
+				defs["Big"] = map[string]interface{}{"description": "big", "properties": props}
+			}
+		}
+	}
 	w := sc.World
 	nt := 2 + r.Intn(5)
 	if tier == "quick" && nt > 4 {
